@@ -38,6 +38,9 @@ CHECKS = {
  'C10': dict(cat='exploration', engine='E2', tech='bounded-exhaustive enumeration of model x parameter lattice x pressure lattice x input shapes; algebraic identities and limits of the defining equations',
    text='All 16 models x a parameter lattice inside the declared bounds (geometric points plus documented special values) x 7 fractions of the validity range x six input shapes: inverse identities in both directions, scalar/array agreement, zero point, non-negativity, monotonicity and saturation bound on a dense 400-point scan (only where the defining equation is monotone), Henry limit against the constant of the defining equation; evaluation through a ModelIsotherm in 5 foreign representations equals bare model composed with the unit conversion (both directions).',
    note='Numerical inverses judged only where the library returns; tolerances tied to optimiser stopping tolerances; lattice phase by VERIF_SEED.', ref='§4 C10'),
+ 'C11': dict(cat='exploration', engine='E2', tech='bounded-exhaustive enumeration of model x parameter lattice x pressure lattice against independent numerical quadrature; point isotherms against the definition',
+   text='13 models exposing a spreading pressure x parameter lattice x 6 fractions of the validity range: value against two independent quadratures of the same model loading/p (linear with break points; over ln p to -inf), zero limit, monotonicity, additivity over intervals, p dpi/dp = n, and a query after an in-place parameter change; 36 point isotherms (4 curve shapes x 3/5/9 points x float/int/series pressures) x queries below the first point, at every knot and mid-segment and at the last point against the Henry-continued piecewise-linear interpolant integrated exactly; unit arguments (pressure unit/mode, loading unit/basis, material unit) for point and model isotherms.',
+   note='scipy quadrature trusted where two formulations agree to 1e-8; queries beyond the last data point are outside the property.', ref='§4 C11'),
 }
 
 def main():
